@@ -353,7 +353,7 @@ pub fn run_one(sheet: &Sheet, opts: &Opts) -> Result<Option<(Vec<Finding>, Strin
             }
             Ok(Some((f, run.normal)))
         }
-        Err((stage, msg)) => Err(format!("{}: {}", stage, msg)),
+        Err((stage, msg)) => Err(crate::common::panic_err(&text, &opts.to_json(), &stage, &msg)),
     }
 }
 
@@ -377,7 +377,7 @@ pub fn explore(prop: Prop, thorough: bool, result_path: &str) {
         rep.transitions += 1;
         match run_one(&sheet, &opts) {
             Ok(None) => rep.count("skipped:not-the-intended-token-sequence", 1),
-            Err(m) => rep.machinery_errors.push(format!("compiler panicked on {:?}: {} (C01 territory)", sheet.text(), m)),
+            Err(m) => rep.engine_error(if matches!(prop, Prop::C08) { "C08" } else { "C09" }, m),
             Ok(Some((findings, output))) => {
                 rep.states += 1;
                 rep.evaluations += 1;
